@@ -256,6 +256,7 @@ type Interp struct {
 	rstack      []*Rule
 	handlers    []handler
 	active      map[string]int
+	activePlain map[string]int
 	evals       int
 	advanced    map[int]bool
 	backtr      bool
@@ -488,19 +489,39 @@ func (ip *Interp) evalRule(r *Rule, pos int) (bool, int, any) {
 			return ok, end, val
 		}
 	}
-	if ip.active[key] > 0 && !(ip.O.LeftRec && ip.an.LeftRec[r.Name] && !ip.isHeadFree(r, pos)) {
+	// a rule entered again at an offset where it is already active: C07's subject (reported as
+	// Reentry). It is non-termination only if the evaluation context is the same too - with
+	// throw / recover the handlers in force are part of it (A <- %{l} entered again from a
+	// recovery expression runs under another handler stack and may well return)
+	ctxKey := key
+	if len(ip.handlers) > 0 {
+		var sb strings.Builder
+		sb.WriteString(key)
+		for _, h := range ip.handlers {
+			fmt.Fprintf(&sb, "|%p", h.expr)
+		}
+		ctxKey = sb.String()
+	}
+	if ip.activePlain == nil {
+		ip.activePlain = map[string]int{}
+	}
+	if !(ip.O.LeftRec && ip.an.LeftRec[r.Name] && !ip.isHeadFree(r, pos)) {
 		// (a non-head rule of a cycle may be re-entered while the head's seed
 		// bounds the recursion)
-		if ip.reentry == "" {
+		if ip.activePlain[key] > 0 && ip.reentry == "" {
 			ip.reentry = key
 		}
-		panic(&refPanic{kind: "diverge", why: "rule " + key + " re-entered"})
+		if ip.active[ctxKey] > 0 {
+			panic(&refPanic{kind: "diverge", why: "rule " + key + " re-entered"})
+		}
 	}
-	ip.active[key]++
+	ip.activePlain[key]++
+	ip.active[ctxKey]++
 	ip.rstack = append(ip.rstack, r)
 	ok, end, val := ip.eval(r.Expr, pos, map[string]any{})
 	ip.rstack = ip.rstack[:len(ip.rstack)-1]
-	ip.active[key]--
+	ip.active[ctxKey]--
+	ip.activePlain[key]--
 	if useMemo && !lrRule {
 		ip.ruleMemo[key] = memoVal{ok, end, val}
 	}
